@@ -352,14 +352,12 @@ def build_items(tier, seed):
             # stay in lock-step for ever in a model without clock jitter (deterministic back-off)
             offs = list(itertools.permutations(range(len(OFFSETS)), k)) if k > 1 else [(0,)]
             for oi, off in enumerate(offs):
-                if k == 3 and tier == "quick" and ids != idsets[3][0] and oi % 2:
-                    continue
                 if k == 1:
                     tsel = timing_all
                 elif tier == "quick":
                     tsel = timing_all if k == 2 else [timing_all[(kk * 5) % 12], timing_all[(kk * 7 + 1) % 12], timing_all[(kk * 11 + 2) % 12]]
                 else:
-                    tsel = timing_all if k == 2 else timing_all[::2]
+                    tsel = timing_all
                 for (c, l) in dict.fromkeys(tsel):
                     kk += 1
                     cases.append(dict(ids=list(ids), offsets=[OFFSETS[o] for o in off], cost=c, lat=l, seed=seed, mlen=(kk * 7) % 25))
@@ -383,8 +381,7 @@ def build_items(tier, seed):
         cases.append(dict(ids=list(range(31, 43)), offsets=[j * 30 * MS for j in range(12)], cost=0, lat=0, seed=seed, mlen=5, tail=300))
         for k in (4, 5):
             for oi, off in enumerate(itertools.permutations(range(5), k)):
-                if oi % 6 == 0:
-                    cases.append(dict(ids=list(range(1, k + 1)), offsets=[(OFFSETS + (90 * MS,))[o] for o in off], cost=oi % 4, lat=(oi // 4) % 3, seed=seed, mlen=5))
+                cases.append(dict(ids=list(range(1, k + 1)), offsets=[(OFFSETS + (90 * MS,))[o] for o in off], cost=oi % 4, lat=(oi // 4) % 3, seed=seed, mlen=5))
     items = [([c], 0) for c in cases]
     # single lost frame, exhaustively over the frames of a one-node join (+ probe script)
     items.append(([dict(ids=[5], offsets=[0], cost=0, lat=0, seed=seed, script=True, unknown=False, timeout=2.0, max_execs=200 if tier == "quick" else 2000)], 1))
@@ -406,7 +403,8 @@ def run(tier, seed, rep, only=None):
         level="model_checking",
         exhaustive=True,
         rule="every case = (ids in join order, start offset per node from {0, 0.3, 5, 40 ms}, pairwise distinct, SPI-cost class, poll-latency class): all offset "
-             "assignments for k<=3 (two id sets), all join orders for k=3, 6- and 7-node runs that exhaust the master's five level-1 slots; "
+             "assignments for k<=3 (every id set; all 12 timing classes for k<=2, 3 per case for k=3 in the quick tier, all in the thorough tier), all join orders for k=3, "
+             "thorough: every offset assignment for k=4 and k=5 from five offsets, 6- and 7-node runs that exhaust the master's five level-1 slots; "
              "after the join barrier the first node runs lookups (known, trivial, unknown), send-to-id, release, re-join. Fault part: the "
              "loss-free run plus EVERY single lost frame of a 1-node join+script and of a 2-node join. Non-trivial = distinct (case, fault choice).",
         bounds=dict(k_max=7 if tier == "quick" else 12, offsets_ns=list(OFFSETS), fault_deviation_bound=1 if tier == "quick" else 2),
